@@ -40,7 +40,7 @@ REGISTRY = {
     "C20": "rlsim.scn.stats:C20",
 }
 
-RUN_WATCHDOG_S = 180
+RUN_WATCHDOG_S = 900  # a single run: far above the guard timeout (kernel.GUARD_TIMEOUT_S = 300 s per library call)
 DEFAULT_BUDGET = {"quick": 40.0, "thorough": 600.0}
 
 
